@@ -178,6 +178,13 @@ type ScriptConn struct {
 	// would block.
 	Starved int
 	NoLog   bool
+	// SlowPeer: the peer may pause for any length of time before its next
+	// bytes, so a Read issued while a read deadline is armed - by whoever -
+	// times out (RDLExpired counts them).  On a connection whose application
+	// sets no read deadline nothing may ever arm one.
+	SlowPeer   bool
+	RDLExpired int
+	curRDL     time.Time
 }
 
 // NewScriptConn returns a transport that will deliver input using the chunk
@@ -296,6 +303,14 @@ func (c *ScriptConn) Read(p []byte) (int, error) {
 		if d := runtime.Callers(0, pcs[:]); d > c.MaxDepth {
 			c.MaxDepth = d
 		}
+	}
+	if c.SlowPeer && !c.curRDL.IsZero() {
+		// the peer takes longer over its next bytes than whatever read deadline
+		// is armed: the read times out
+		c.RDLExpired++
+		err := FaultErr(FaultTimeout)
+		c.log(Op{Kind: OpRead, Asked: len(p), Err: err})
+		return 0, err
 	}
 	if c.rfired && !c.rfault.Resume {
 		c.log(Op{Kind: OpRead, Asked: len(p), Err: c.rferr})
@@ -443,6 +458,9 @@ func (c *ScriptConn) deadlineOp(kind OpKind, t time.Time, writeSide bool) error 
 	}
 	if writeSide && err == nil {
 		c.curWDL = t
+	}
+	if err == nil && (kind == OpSetDeadline || kind == OpSetReadDeadline) {
+		c.curRDL = t
 	}
 	c.log(Op{Kind: kind, Deadline: t, Err: err})
 	return err
